@@ -66,6 +66,8 @@ def compare(ctx, label, path, text, raw, features, sample_files=None):
         exact = u.get("exact_span", True) and u.get("plain_string", True)
         exp_u.append(ukey(u["name"], u["line"], u["start_b"], u["end_b"], exact))
     inexact_lines = {(k[0], k[1]) for k in exp_u if k[2] is None}
+    # the same name twice on one line, once in a form whose span is not judged: neither span is judged there
+    exp_u = [(k[0], k[1], None, None) if (k[0], k[1]) in inexact_lines else k for k in exp_u]
     got_u = []
     for u in usages:
         if u["name"] in SKIP_NAMES or (u["name"], u["line"], u["start_char"]) in dont:
